@@ -23,6 +23,9 @@ pub struct Workload {
     pub failing_explicit: Option<&'static str>,
     /// -m N -A k, with the first NUL beyond 64 KiB inside the k lines after the N-th match.
     pub limit: Option<(usize, usize)>,
+    /// Files written as UTF-16LE with a byte-order mark: path -> the text they decode to (a NUL
+    /// byte of that text is U+0000 in the file). What is searched, and judged, is the decoded text.
+    pub utf16: std::collections::BTreeMap<String, Vec<u8>>,
 }
 
 pub fn gen_workload(sub: u64) -> Workload {
@@ -57,6 +60,7 @@ pub fn gen_workload(sub: u64) -> Workload {
             via_stdin: false,
             failing_explicit: None,
             limit: Some((n, k)),
+            utf16: Default::default(),
         };
     }
     let big = rng.chance(1, 6);
@@ -106,10 +110,22 @@ pub fn gen_workload(sub: u64) -> Workload {
         corpus.files.truncate(1);
         placements.retain(|p| p.starts_with(&format!("{}:", corpus.files[0].0)));
     }
+    let mut utf16 = std::collections::BTreeMap::new();
+    if !via_stdin && rng.chance(1, 5) {
+        let i = rng.below(corpus.files.len());
+        let (p, c) = &mut corpus.files[i];
+        if c.len() < 20_000 && c.is_ascii() {
+            let mut enc = vec![0xFFu8, 0xFE];
+            for &b in c.iter() {
+                enc.extend_from_slice(&(b as u16).to_le_bytes());
+            }
+            utf16.insert(p.clone(), std::mem::replace(c, enc));
+        }
+    }
     let explicit = via_stdin || rng.chance(1, 2);
     let mmap = if rng.chance(1, 2) { "--mmap" } else { "--no-mmap" };
     let failing_explicit = if !explicit && rng.chance(1, 4) { Some(if mmap == "--no-mmap" && rng.chance(1, 2) { "read" } else { "open" }) } else { None };
-    Workload { corpus, explicit, binary_flag, mmap, frag: rng.chance(1, 2) && !via_stdin, mode, placements, via_stdin, failing_explicit, limit: None }
+    Workload { corpus, explicit, binary_flag, mmap, frag: rng.chance(1, 2) && !via_stdin, mode, placements, via_stdin, failing_explicit, limit: None, utf16 }
 }
 
 fn args_have(args: &[String], any: &[&str]) -> bool {
@@ -229,7 +245,10 @@ pub fn run_workload(sub: u64, acc: &mut Acc, ctx: &Ctx, _thorough: bool) {
     for p in &w.placements {
         acc.faults.inc(&format!("NUL:{}", p.split(':').nth(1).unwrap_or("").split('@').next().unwrap_or("")));
     }
-    let has_nul_files = w.corpus.files.iter().any(|(_, c)| c.contains(&0));
+    let has_nul_files = w.corpus.files.iter().any(|(p, c)| w.utf16.get(p).unwrap_or(c).contains(&0));
+    if !w.utf16.is_empty() {
+        acc.mix.inc("a-file-in-UTF-16-with-a-mark");
+    }
     if has_nul_files {
         acc.distinct.insert(fnv(&got.stdout) ^ sub);
     }
@@ -274,6 +293,7 @@ pub fn run_workload(sub: u64, acc: &mut Acc, ctx: &Ctx, _thorough: bool) {
         // file without a match)
         let out_lines = lines(&got.stdout);
         for (p, c) in &w.corpus.files {
+            let c = w.utf16.get(p).unwrap_or(c);
             let Some(z) = c.iter().position(|&b| b == 0) else { continue };
             if z >= 65_536 {
                 continue;
@@ -291,6 +311,7 @@ pub fn run_workload(sub: u64, acc: &mut Acc, ctx: &Ctx, _thorough: bool) {
         if convert {
             let out_lines = lines(&got.stdout);
             for (p, c) in &w.corpus.files {
+                let c = w.utf16.get(p).unwrap_or(c);
                 if !c.contains(&0) {
                     continue;
                 }
@@ -310,6 +331,7 @@ pub fn run_workload(sub: u64, acc: &mut Acc, ctx: &Ctx, _thorough: bool) {
     // per-file outcome model in the line mode
     let out_lines = lines(&got.stdout);
     for (p, c) in &w.corpus.files {
+        let c = w.utf16.get(p).unwrap_or(c);
         let label = if w.via_stdin { "<stdin>".to_string() } else { format!("w/{p}") };
         let t = model_lines(&label, c);
         let mine: Vec<&[u8]> = out_lines.iter().cloned().filter(|l| l.starts_with(format!("{label}:").as_bytes())).collect();
